@@ -286,9 +286,13 @@ def run(A, R: Report, thorough: bool):
     for r in rets:
         v = subst_single_assign(A, fctt, r.value) if r.value is not None else None
         good = False
-        if isinstance(v, ast.Subscript):
-            base = subst_single_assign(A, fctt, v.value)
-            key = subst_single_assign(A, fctt, v.slice)
+        # chain[name] is Chain.__getitem__, which is `self.get(name)`: both spellings are the lookup by name
+        getitem = A.cls('Chain').methods.get('__getitem__')
+        by_get = isinstance(v, ast.Call) and isinstance(v.func, ast.Attribute) and v.func.attr == 'get' and len(v.args) == 1 and not v.keywords and getitem is not None \
+            and [src(st) for st in getitem.node.body if not (isinstance(st, ast.Expr) and isinstance(st.value, ast.Constant))] == [f'return self.get({getitem.params[1]})']
+        if isinstance(v, ast.Subscript) or by_get:
+            base = subst_single_assign(A, fctt, v.value if isinstance(v, ast.Subscript) else v.func.value)
+            key = subst_single_assign(A, fctt, v.slice if isinstance(v, ast.Subscript) else v.args[0])
             good = base in tcs and isinstance(key, ast.Call) and isinstance(key.func, ast.Attribute) and key.func.attr == 'fullname' and src(key.func.value) == fctt.params[0] \
                 and len(key.args) == 1 and isinstance(key.args[0], ast.Attribute) and key.args[0].attr == 'config' and subst_single_assign(A, fctt, key.args[0].value) in tcs
         ret_ok = ret_ok and good
@@ -299,6 +303,9 @@ def run(A, R: Report, thorough: bool):
     check_expand_tasks(A, R, 'R19.5')
     from .c08 import check_declaration_loop
     check_declaration_loop(A, R, 'R19.5')
+    from .c08 import check_bound_input
+    R.rule('R19.10', 'a missing input referenced by class is reported at construction: the bound task is the one registered under the class\'s own name', floor=1)
+    check_bound_input(A, R, 'R19.10')
     R.rule('R19.6', 'run() arguments are bound by name from input tasks and declared parameters only', floor=1)
     check_run_argument_binding(A, R, 'R19.6')
 
